@@ -18,7 +18,9 @@ Rule == [ls |-> [cat |-> <<99>>, prod |-> <<119,105,110,100,111,119,115>>, svc |
                      [field |-> <<102,105,101,108,100,75,49>>, vals |-> <<VStr("str", <<107,120>>, <<>>)>>, applied |-> <<t_pre, t_ren, t_only1>>],      \* fieldK1: also processed by only1
                      [field |-> <<102,105,101,108,100,75,50>>, vals |-> <<VStr("str", <<107,119>>, <<>>)>>, applied |-> <<t_pre, t_ren>>],
                      \* Hashes: MD5=aa11, processed by hpre, then replaced by FileMD5: aa11 (the replacement stands for the item, its history included)
-                     [field |-> <<70,105,108,101,77,68,53>>, vals |-> <<VStr("str", <<97,97,49,49>>, <<>>)>>, applied |-> <<t_hpre, t_hsplit>>]>>,
+                     [field |-> <<70,105,108,101,77,68,53>>, vals |-> <<VStr("str", <<97,97,49,49>>, <<>>)>>, applied |-> <<t_hpre, t_hsplit>>],
+                     \* fieldS|cased: Adm - a case-sensitive string value (a value like any other for the conditions on values)
+                     [field |-> <<102,105,101,108,100,83>>, vals |-> <<VStr("cased", <<65,100,109>>, <<>>)>>, applied |-> <<>>]>>,
          fields |-> <<[name |-> fB, applied |-> <<t_ren>>], [name |-> fE, applied |-> <<>>]>>,
          applied |-> <<t_st, t_pre, t_ren, t_only1, t_hpre, t_hsplit, t_st0, <<115,116,110>>>>,
          state |-> <<(<<(<<107>>), SVal(<<118>>)>>), (<<(<<122>>), SVal(<<>>)>>), (<<(<<110>>), NVal(5)>>)>>,      \* k = "v", z = "", n = 5
@@ -74,13 +76,13 @@ Clause(o) ==
         (IF ~o.ret.ok THEN (IF o.ret.sigma THEN "GateConfigurationRejected" ELSE "NonSigmaException")
          ELSE IF o.ret.out.rule # ActsOnRule(o.G, RulePP(o.pp)) THEN "GateIff:post-processing" ELSE "")
     ELSE IF ~o.ret.ok THEN (IF o.ret.sigma THEN "GateConfigurationRejected" ELSE "NonSigmaException")
-    ELSE IF (\E j \in 1..7 : o.ret.out.items[j] # ActsOnItem(o.G, j, Rule)) \/ o.ret.out.refs # <<ActsOnFieldRef(o.G, 4, fH, Rule)>> THEN
-        (IF HasApplied(o.G.field) /\ (\A j \in 1..7 : o.ret.out.items[j] = MechActsOnItem(o.G, j))
+    ELSE IF (\E j \in 1..8 : o.ret.out.items[j] # ActsOnItem(o.G, j, Rule)) \/ o.ret.out.refs # <<ActsOnFieldRef(o.G, 4, fH, Rule)>> THEN
+        (IF HasApplied(o.G.field) /\ (\A j \in 1..8 : o.ret.out.items[j] = MechActsOnItem(o.G, j))
                                  /\ o.ret.out.refs = <<MechActsOnRef(o.G, 4, fH)>>
          THEN "dev:Dev_FieldAppliedConditionSecondCheck"
-         ELSE IF (\A j \in 1..7 : o.ret.out.items[j] = MechPActsOnItem(o.G, j)) /\ o.ret.out.refs = <<MechPActsOnRef(o.G, 4, fH)>>
+         ELSE IF (\A j \in 1..8 : o.ret.out.items[j] = MechPActsOnItem(o.G, j)) /\ o.ret.out.refs = <<MechPActsOnRef(o.G, 4, fH)>>
          THEN "dev:Dev_FieldGroupPrefilterOverReferences"
-         ELSE IF \E j \in 1..7 : o.ret.out.items[j] # ActsOnItem(o.G, j, Rule) THEN "GateIff:detection-item"
+         ELSE IF \E j \in 1..8 : o.ret.out.items[j] # ActsOnItem(o.G, j, Rule) THEN "GateIff:detection-item"
          ELSE "GateIff:field-reference")
     ELSE IF \E j \in 1..2 : o.ret.out.fields[j] # ActsOnFieldEntry(o.G, j, Rule) THEN "GateIff:field-list"
     ELSE IF o.ret.out.rule # ActsOnRule(o.G, Rule) THEN "GateIff:rule"
